@@ -254,6 +254,9 @@ def env_of(kind, qs="", accept=None):
     elif kind == "badchunk":
         env.update({"REQUEST_METHOD": "POST", "PATH_INFO": "/body", "HTTP_TRANSFER_ENCODING": "chunked",
                     "wsgi.input": stubs.SymStream(4, [], data=b"zz\r\n")})
+    elif kind in ("streamfail", "streamreset"):    # the server's stream fails after 2 of the 6 announced bytes (client gone / timeout)
+        env.update({"REQUEST_METHOD": "POST", "PATH_INFO": "/body", "CONTENT_LENGTH": "6",
+                    "wsgi.input": stubs.FaultStream(6, [2], b"uvwxyz", 2, OSError if kind == "streamfail" else ConnectionResetError)})
     elif kind == "oversize":
         env.update({"REQUEST_METHOD": "POST", "PATH_INFO": "/body", "CONTENT_LENGTH": "9",
                     "wsgi.input": stubs.SymStream(9, [], data=b"123456789")})
@@ -274,7 +277,7 @@ def env_of(kind, qs="", accept=None):
     return env
 
 
-KINDS = ["ok", "404", "405", "badpath", "crash", "raise", "badchunk", "oversize", "body", "body2", "body6", "chunkbody",
+KINDS = ["ok", "404", "405", "badpath", "crash", "raise", "badchunk", "oversize", "streamfail", "streamreset", "body", "body2", "body6", "chunkbody",
          "vh-blog", "vh-shop", "vh-none", "vh-direct", "logout", "admin-logout", "jp", "jp-broken", "u16", "u16-broken"]
 
 
@@ -385,7 +388,7 @@ def queries(tier):
                      "ASCII string of <= 1 character, status written from %r, Accept json or not" % (k, STATUS),
                      timeout=150 if not T else 400, per_path_timeout=40, expect_cover=["ok"], family="retention"))
     firsts = KINDS
-    seconds = ["ok", "404", "badpath", "crash", "body", "body2", "badchunk", "oversize", "vh-blog", "vh-none", "logout", "jp", "u16"] if not T else KINDS
+    seconds = ["ok", "404", "badpath", "crash", "body", "body2", "badchunk", "oversize", "streamfail", "vh-blog", "vh-none", "logout", "jp", "u16"] if not T else KINDS
     for k1 in firsts:
         for k2 in seconds:
             for j2 in ((False,) if not T else (False, True)):
